@@ -1171,6 +1171,7 @@ def name_to_class_map(name):
         "h": Hadamard,
         "s": Phase,
         "p": Phase,
+        "sdg": PhaseDagger,
         "cz": CZ,
         "classical x": ClassicalCNOT,
         "classical z": ClassicalCZ,
